@@ -219,3 +219,19 @@ Theorem C13_deanchor_merge_free_refuted :
   exists e, deanchor_doc chained_merge = Ok e /\ alias_free e = true /\ merge_free e = false.
 Proof. exact chained_merge_keeps_merge_key. Qed.
 Print Assumptions C13_deanchor_merge_free_refuted.
+
+(* "… and equals the expansion": on documents without merge keys, DeAnchor succeeds exactly when the reference
+   expansion (Yaml/Anchor.v: expand — every alias stands for the node that last carried the anchor, anchors
+   dropped, no finite expansion for a node that contains itself) exists, and returns it.  Partial: documents
+   WITH merge keys are tied to the implementation by correspondence only (D_deanchor cases). *)
+Theorem C13_deanchor_equals_expansion_partial :
+  forall n e, merge_free n = true -> (deanchor_doc n = Ok e <-> expand_doc n = Some e).
+Proof. exact deanchor_equals_expansion. Qed.
+Print Assumptions C13_deanchor_equals_expansion_partial.
+
+(* "no alias, no anchor, no merge key" on the domain where it holds: no mapping that can be the source of a
+   merge (anchored, or written in place as merge value / item of a merge list) has a merge key itself *)
+Theorem C13_deanchor_plain_partial :
+  forall n e, flat_merges false n = true -> deanchor_doc n = Ok e -> alias_free e = true /\ merge_free e = true.
+Proof. exact deanchor_merge_free_flat. Qed.
+Print Assumptions C13_deanchor_plain_partial.
